@@ -249,7 +249,8 @@ def fill_holes(mesh):
             return [face_A, face_B], []
         return [], []
 
-    if len(mesh.faces) < 3:
+    # two faces that share an edge are bounded by a quad
+    if len(mesh.faces) < 2:
         return False
 
     if mesh.is_watertight:
